@@ -19,6 +19,8 @@ import NB.Drv.C12
 import NB.Drv.C13
 import NB.Drv.C02
 import NB.Drv.C20
+import NB.Drv.C04
+import NB.Drv.C19
 
 def handlers : List (String × (String → List String → Option (String × String))) :=
   [ ("C01", NB.Drv.C01.handle),
@@ -36,7 +38,9 @@ def handlers : List (String × (String → List String → Option (String × Str
     ("C12", NB.Drv.C12.handle),
     ("C13", NB.Drv.C13.handle),
     ("C02", NB.Drv.C02.handle),
-    ("C20", NB.Drv.C20.handle) ]
+    ("C20", NB.Drv.C20.handle),
+    ("C04", NB.Drv.C04.handle),
+    ("C19", NB.Drv.C19.handle) ]
 
 def answer (line : String) : String :=
   match (line.trimAscii.toString.splitOn " ").filter (· ≠ "") with
